@@ -112,7 +112,9 @@ static void trace(rng & r, std::ofstream & out, long n, long & events) {
         for (std::size_t i = 0; i < N; ++i) {
             long k = (long)r.below(1ull << (1 + r.below(mant))) - (r.below(16) == 0 ? 1 : 0);
             P frac;
-            switch (r.below(6)) {
+            const bool big_lattice = r.below(8) == 0;     // a lattice point itself, of a magnitude where the type has no fractional bits left
+            if (big_lattice) k = (long)((1ull << (std::is_same_v<P, float> ? 22 : 29)) + r.below(1ull << (std::is_same_v<P, float> ? 22 : 29)));
+            switch (big_lattice ? 3 : r.below(6)) {
                 case 0: frac = (P)0.5; break;
                 case 1: frac = std::nextafter((P)0.5, (P)0); break;
                 case 2: frac = std::nextafter((P)0.5, (P)1); break;
